@@ -57,12 +57,18 @@ impl rand_core::CryptoRng for FixedRng {}
 /// counter is derived from
 #[allow(clippy::too_many_arguments)]
 pub fn plant_on(m: &Matter, local: u64, peer: u64, peer_idx: usize, local_sess: u16, peer_sess: u16, fab: u8, ctr0: Option<u32>) {
+    plant_kind(m, local, peer, peer_idx, local_sess, peer_sess, fab, ctr0, false)
+}
+
+/// `pase`: the session is a PASE session (no fabric) instead of a CASE session
+#[allow(clippy::too_many_arguments)]
+pub fn plant_kind(m: &Matter, local: u64, peer: u64, peer_idx: usize, local_sess: u16, peer_sess: u16, fab: u8, ctr0: Option<u32>, pase: bool) {
     m.with_state(|s| {
         while s.fabrics.iter().count() < fab as usize {
             s.fabrics.add_with_post_init(|_| Ok(())).unwrap();
         }
     });
-    let mode = SessionMode::Case { fab_idx: NonZeroU8::new(fab).unwrap(), cat_ids: Default::default() };
+    let mode = if pase { SessionMode::Pase { fab_idx: 0 } } else { SessionMode::Case { fab_idx: NonZeroU8::new(fab).unwrap(), cat_ids: Default::default() } };
     match ctr0 {
         None => {
             let mut sess = ReservedSession::reserve_now(m, test_only_crypto()).unwrap();
@@ -98,10 +104,13 @@ fn one_run(bi: usize, ops: &[Value], rounds: u8, tr: &mut Trace) -> RunOut {
     let a = Matter::new(&TEST_DEV_DET, TEST_DEV_COMM, &TEST_DEV_ATT, 5540);
     let b = Matter::new(&TEST_DEV_DET, TEST_DEV_COMM, &TEST_DEV_ATT, 5540);
     // {"op": "Config", "ctr0": n} as the first operation: the sessions under test start their message counters from n
-    let ctr0 = ops.first().filter(|o| o["op"] == "Config").and_then(|o| o["ctr0"].as_u64()).map(|x| x as u32);
+    let cfg_first = ops.first().filter(|o| o["op"] == "Config");
+    let ctr0 = cfg_first.and_then(|o| o["ctr0"].as_u64()).map(|x| x as u32);
     let ops = if ops.first().map(|o| o["op"] == "Config").unwrap_or(false) { &ops[1..] } else { ops };
-    plant_on(&a, NODE_A, NODE_B, 1, 1, 1, 1, ctr0);
-    plant_on(&b, NODE_B, NODE_A, 0, 1, 1, 1, ctr0);
+    // {"op": "Config", "mode": "pase"}: the session under test is a PASE session
+    let pase = cfg_first.map(|o| o["mode"] == "pase").unwrap_or(false);
+    plant_kind(&a, NODE_A, NODE_B, 1, 1, 1, 1, ctr0, pase);
+    plant_kind(&b, NODE_B, NODE_A, 0, 1, 1, 1, ctr0, pase);
     // idle sessions with other peers (300 + k) on both nodes, so that the session table is almost full: every new
     // unsecured session a schedule provokes (a stray first message of a handshake) then evicts one of them
     for k in 0..14u16 {
@@ -117,7 +126,12 @@ fn one_run(bi: usize, ops: &[Value], rounds: u8, tr: &mut Trace) -> RunOut {
 
     let app_a = async {
         let r: Result<(), Error> = async {
-            let mut ex = Exchange::initiate(&a, &crypto, NonZeroU8::new(1).unwrap(), NODE_B).await?;
+            // (over the session under test, whatever its kind: local session id 1)
+            let sid = a.with_state(|st| st.verif_snapshot().sessions.sessions.iter().find(|x| x.local_sess_id == 1).map(|x| x.id));
+            let mut ex = match sid {
+                Some(sid) if pase => Exchange::initiate_for_session(&a, &crypto, sid)?,
+                _ => Exchange::initiate(&a, &crypto, NonZeroU8::new(1).unwrap(), NODE_B).await?,
+            };
             for r in 1..=rounds {
                 let id = 2 * r - 1;
                 ev(json!({"ev": "AppSend", "n": "A", "id": id, "t": sim::now_ms()}));
